@@ -319,7 +319,11 @@ class BaseAsyncNetworkServerImpl(AbstractAsyncNetworkServer, Generic[_T_LowLevel
                 with self.__backend.open_cancel_scope() as self.__servers_factory_scope:
                     await self.__backend.coro_yield()
                     listeners.extend(await servers_factory(self))  # type: ignore[arg-type]
-                if self.__servers_factory_scope.cancelled_caught():
+                if self.__servers_factory_scope.cancel_called():
+                    # server_close() has been called in the meantime. The cancellation may not have been caught:
+                    # it is swallowed if it lands in a cancel-shielded section of the factory.
+                    if listeners:
+                        await self.__backend.ignore_cancellation(self.__close_all_servers(self.__backend, listeners))
                     raise ServerClosedError("Server has been closed")
             finally:
                 self.__servers_factory_scope = None
